@@ -81,6 +81,20 @@ func init() {
 		delete(setSelf.items, item)
 		return NoneType{}, nil
 	}, 0, "discard(value) -- remove an element from a set if it is a member")
+
+	SetType.Dict["remove"] = MustNewMethod("remove", func(self Object, args Tuple) (Object, error) {
+		setSelf := self.(*Set)
+		var item Object
+		err := UnpackTuple(args, nil, "remove", 1, 1, &item)
+		if err != nil {
+			return nil, err
+		}
+		if _, ok := setSelf.items[item]; !ok {
+			return nil, ExceptionNewf(KeyError, "%v", item)
+		}
+		delete(setSelf.items, item)
+		return NoneType{}, nil
+	}, 0, "remove(value) -- remove an element from a set; it must be a member")
 }
 
 // Add an item to the set
